@@ -58,8 +58,10 @@ pub fn specs() -> Vec<PropertySpec> {
                 Plan { engine: "e2", variant: "c08", quick: 700, thorough: 15_000, asan: false },
                 Plan { engine: "e1", variant: "c08", quick: 15_000, thorough: 800_000, asan: false },
                 Plan { engine: "e1", variant: "c08", quick: 3_000, thorough: 100_000, asan: true },
+                // "in every other simulated run no trap": the fault-free generate class on rich projects
+                Plan { engine: "e2", variant: "arte", quick: 1_200, thorough: 30_000, asan: false },
             ],
-            rule: "at-rest corruption of one input (config, schema or operation file): truncate at a byte offset, flip one bit, splice with another file, empty, invalid UTF-8 tail, file vanished, unreadable; then check / generate / check+generate",
+            rule: "at-rest corruption of one input (config, schema or operation file): truncate at a byte offset, flip one bit, splice with another file, empty, invalid UTF-8 tail, indentation replaced by Unicode spaces (IME / copy-paste), file vanished, unreadable; then check / generate / check+generate; plus the fault-free generate class (no trap in any simulated run)",
             assumptions: vec!["storage-fault slice only: grammar-directed fuzzing of the parser is a different technique"],
             real_components: vec!["nitrogql-cli binary", "loader ABI"],
             stubbed_components: vec!["storage (corruptions applied to the tree before the run)"],
